@@ -64,6 +64,14 @@ def _ints(a):
 
 
 # ------------------------------------------------------------------------------------------------ primitives
+_KEEP = None     # inside a history: [(result object, function reading it back, what it read when the call returned)]
+
+
+def _keep(obj, read):
+    if _KEEP is not None:
+        _KEEP.append((obj, read, read(obj)))
+
+
 def p_quicksort(A):
     import esutil.algorithm as alg
 
@@ -91,6 +99,7 @@ def p_isplit(num, nchunks, scribble=False):
         if scribble:               # what a caller shifting / clipping the ranges does with ITS result
             s["start"] += 1000
             s["end"] -= 7
+        _keep(s, lambda a: [[int(x), int(y)] for x, y in zip(a["start"], a["end"])])
         return out
     return _guard(f)
 
@@ -103,6 +112,8 @@ def p_splitarray(nper, A, scribble=False):
         out = [_ints(c) for c in ch]
         if scribble:
             ch.clear()
+        if isinstance(A, list):    # chunks of an ndarray argument are views of it (aliasing by design): not retained
+            _keep(ch, lambda l: [_ints(c) for c in l])
         return out
     return _guard(f)
 
@@ -206,7 +217,11 @@ def p_pmap(i, items):
         fn = functools.partial(c20_tasks.task_exn, i["a"], i["b"], i["p"], i["r"], i["q"], i["s"], i["lat"])
     else:
         fn = functools.partial(c20_tasks.task, i["a"], i["b"], i["lat"])
-    return _guard(lambda: _ints(pb.pmap(fn, items, chunksize=i["chunksize"], nproc=i["nproc"], **kw)))
+    def f():
+        res = pb.pmap(fn, items, chunksize=i["chunksize"], nproc=i["nproc"], **kw)
+        _keep(res, _ints)
+        return _ints(res)
+    return _guard(f)
 
 
 # ------------------------------------------------------------------------------------------------ one call, alone
@@ -247,6 +262,10 @@ def alone(op, i):
 # ------------------------------------------------------------------------------------------------ a history, in this process
 def run_history(steps, objs=None, recs=None):
     """returns the list of call records {"op", "in", "out"} in the order the calls RETURNED (steps `set` produce none)"""
+    global _KEEP
+    top = objs is None
+    if top:
+        _KEEP = []
     objs = {} if objs is None else objs
     recs = [] if recs is None else recs
     for st in steps:
@@ -325,6 +344,11 @@ def run_history(steps, objs=None, recs=None):
         else:
             raise ValueError("unknown step " + op)
         recs.append({"op": op, "in": i, "out": out})
+    if top:
+        # no buffer reuse: every result handed out earlier still reads as it did when its call returned
+        kept, _KEEP = _KEEP, None
+        recs.append({"op": "results_unchanged", "in": {"results": len(kept)},
+                     "out": [read(obj) == snap for obj, read, snap in kept]})
     return recs
 
 
